@@ -12,6 +12,7 @@ package main
 
 import (
 	"crypto/sha256"
+	"encoding/base64"
 	"encoding/hex"
 	"fmt"
 	"net"
@@ -27,6 +28,7 @@ import (
 	"github.com/semihalev/sdns/internal/verif/srvh"
 	"github.com/semihalev/sdns/internal/verif/vlib"
 	"github.com/semihalev/sdns/middleware/cache"
+	"github.com/semihalev/sdns/server"
 )
 
 const markers = "abc" // a: ServeRaw, b: ServeMsg, c: ServeRawInline(+Replay)
@@ -144,6 +146,7 @@ func startLive(c liveCfg) {
 	}})
 	live.Stub.Set(stubRespond)
 	opSeq = 0
+	slabs = [4]*server.VerifJob{}
 }
 
 // ---------------------------------------------------------------- scripted upstream
@@ -164,6 +167,15 @@ func sig(owner string, covered uint16, zone string, ttl uint32) dns.RR {
 		Expiration: uint32(now.Add(48 * time.Hour).Unix()), Inception: uint32(now.Add(-time.Hour).Unix()),
 		KeyTag: 4242, SignerName: zone, Signature: "c2lnbmF0dXJlc2lnbmF0dXJlc2lnbmF0dXJlc2lnbmF0dXJlc2lnbmF0dXJlc2lnbmF0dXJlc2lnbmF0dXJlc2ln",
 	}
+}
+
+// bigSig is sig with an RSA-2048 sized (256 octet) signature: two of them make
+// a denial proof larger than the classic 512 octet UDP buffer.
+func bigSig(owner string, covered uint16, zone string, ttl uint32) dns.RR {
+	r := sig(owner, covered, zone, ttl).(*dns.RRSIG)
+	r.Algorithm = 8
+	r.Signature = base64.StdEncoding.EncodeToString([]byte(strings.Repeat("rsa-2048-signature-octets-", 10))[:256])
+	return r
 }
 
 // zoneOf returns the last two labels ("<uniq>-<m>.zt.").
@@ -354,9 +366,9 @@ func stubRespond(req *dns.Msg) *dns.Msg {
 func signedDenial(denied, zone string) []dns.RR {
 	soa := soaFor(zone, 180)
 	return []dns.RR{
-		soa, sig(zone, dns.TypeSOA, zone, 180),
+		soa, bigSig(zone, dns.TypeSOA, zone, 180),
 		&dns.NSEC{Hdr: dns.RR_Header{Name: zone, Rrtype: dns.TypeNSEC, Class: dns.ClassINET, Ttl: 180}, NextDomain: under("zz", zone), TypeBitMap: []uint16{dns.TypeSOA, dns.TypeNS, dns.TypeRRSIG, dns.TypeNSEC}},
-		sig(zone, dns.TypeNSEC, zone, 180),
+		bigSig(zone, dns.TypeNSEC, zone, 180),
 	}
 }
 
@@ -447,9 +459,52 @@ func settle() {
 	}
 }
 
+// The owned UDP/TCP engines serve every packet of a socket on a small set of
+// job slabs whose transmit buffer is leased to the byte path UNSCRUBBED: it
+// still holds the previous reply. The driver therefore keeps one job per path
+// for the life of an instance (as an engine does) and, before each serve,
+// overwrites the slab with a poison byte, so that any header bit or body byte
+// a wire builder does not write itself shows up in the reply.
+var slabs [4]*server.VerifJob // 0 ServeRaw, 2 ServeRawInline(+Replay), 3 warm-up / follow-up clients
+
+var poisonByte byte = 0xFF
+
+func slab(i int, remote net.Addr) *server.VerifJob {
+	if slabs[i] == nil {
+		slabs[i] = &server.VerifJob{}
+	}
+	j := slabs[i]
+	j.Remote = remote
+	j.Writes = nil
+	server.VerifC05PoisonTX(j, poisonByte)
+	return j
+}
+
+// rawOn is srvh.Live.Raw on a reused, poisoned job slab.
+func rawOn(i int, pkt []byte, remote net.Addr) ([][]byte, bool, bool) {
+	j := slab(i, remote)
+	handled := live.Srv.ServeRaw(j, pkt, time.Now())
+	return j.Writes, handled, j.VerifTookStrict()
+}
+
+// rawInlineOn is srvh.Live.RawInline on a reused, poisoned job slab.
+func rawInlineOn(i int, pkt []byte, remote net.Addr) (writes [][]byte, inlineHandled, replayed bool) {
+	j := slab(i, remote)
+	if !live.Srv.InlineReady() {
+		live.Srv.ServeRaw(j, pkt, time.Now())
+		return j.Writes, false, false
+	}
+	inlineHandled = live.Srv.ServeRawInline(j, pkt, time.Now())
+	if !inlineHandled {
+		replayed = true
+		live.Srv.ServeRawReplay(j, pkt, time.Now())
+	}
+	return j.Writes, inlineHandled, replayed
+}
+
 func rawSettled(pkt []byte, remote net.Addr) ([][]byte, bool, bool) {
 	defer settle()
-	return live.Raw(pkt, remote) // settle: deferred
+	return rawOn(3, pkt, remote)
 }
 
 func msgSettled(m *dns.Msg, remote net.Addr, proto string) *srvh.MsgWriter {
@@ -462,7 +517,7 @@ func serve(path int, pkt []byte, remote net.Addr, proto string) reply {
 	defer settle()
 	switch path {
 	case 0:
-		ws, handled, strict := live.Raw(pkt, remote) // settle: deferred
+		ws, handled, strict := rawOn(0, pkt, remote)
 		r := fromWrites(ws, handled)
 		r.strict = strict
 		return r
@@ -473,7 +528,7 @@ func serve(path int, pkt []byte, remote net.Addr, proto string) reply {
 		}
 		return fromMsgWriter(live.Msg(m, remote, proto)) // settle: deferred
 	default:
-		ws, inl, replayed := live.RawInline(pkt, remote)
+		ws, inl, replayed := rawInlineOn(2, pkt, remote)
 		// RawInline cannot report an undecodable body: classify like ServeRaw does.
 		if len(ws) == 0 && replayed {
 			m := new(dns.Msg)
@@ -1048,6 +1103,43 @@ func execQ(a map[string]string) vlib.Res {
 	if warmCalls > 0 || a["cut"] == "1" || a["fail"] != "" || rep > 1 {
 		tags = "nt"
 	}
+	// input distribution (shows up in the evidence's tag_distribution)
+	var dist []string
+	scn := strings.ToLower(s.name)
+	if i := strings.IndexAny(scn, ".0123456789"); i > 0 {
+		scn = scn[:i]
+	}
+	if !strings.Contains(s.name, "@") {
+		scn = "shared-name"
+	}
+	dist = append(dist, "scn:"+scn, "proto:"+proto, "warm:"+warm)
+	if len(replies[2]) > 0 {
+		dist = append(dist, "first:"+replies[2][0].inline+":"+replies[2][0].class)
+	}
+	for _, kvp := range [][2]string{{"cut", a["cut"]}, {"fail", a["fail"]}, {"mix", a["mix"]}} {
+		if kvp[1] != "" {
+			dist = append(dist, kvp[0]+":"+kvp[1])
+		}
+	}
+	if hasRL {
+		dist = append(dist, "cfg:ratelimit")
+	}
+	if liveC.prefetch > 0 {
+		dist = append(dist, "cfg:prefetch")
+	}
+	if liveC.erl > 0 {
+		dist = append(dist, "cfg:entry-limit")
+	}
+	if liveC.hosts {
+		dist = append(dist, "cfg:hosts")
+	}
+	if liveC.empty {
+		dist = append(dist, "cfg:as112")
+	}
+	if tags != "" {
+		dist = append([]string{tags}, dist...)
+	}
+	tags = strings.Join(dist, ",")
 	impl := fmt.Sprintf("raw=%s msg=%s inline=%s/%s up=%d,%d,%d fu=%d,%d,%d", cls(replies[0]), cls(replies[1]), cls(replies[2]), inl(replies[2]),
 		calls[0], calls[1], calls[2], fcalls[0], fcalls[1], fcalls[2])
 	return vlib.Res{Impl: impl, Oracle: verdict, Tags: tags}
